@@ -57,7 +57,7 @@ Example ex_crash_history :
   no_orphan tl_consts_gen ex_dec table_swap_in_sender terminal_states ex_h0 ex_its_crash = false /\
   bcs (hs_trace (ex_run ex_its_crash)) = [ex_open] /\
   match last_persist (hs_trace (ex_run ex_its_crash)) with
-  | Some (s, d) => s = "State_SwapInSender_AwaitAgreement" /\ d_otb d = None /\ otb_matches d ex_open = false
+  | Some (s, d) => s = "State_SwapCanceled" /\ d_otb d = None /\ otb_matches d ex_open = false
   | None => False
   end.
 Proof. vm_compute. repeat split; reflexivity. Qed.
